@@ -53,6 +53,40 @@ def _guarded_solve(a, b, *args, **kw):
 _sl.solve = _guarded_solve
 
 
+class CaseTimeout(Exception):
+    """one generated case did not finish within the per-case limit (a non-terminating or diverging implementation)"""
+    pass
+
+
+_WD = {'active': False}
+
+
+def with_watchdog(fn, limit):
+    """wrap a case runner: SIGALRM after `limit` seconds raises CaseTimeout inside the case, which the caller's
+    `except Exception` turns into a reported failure with the case seed as replay"""
+    import signal
+    import functools
+
+    def handler(signum, frame):
+        raise CaseTimeout('no result after %d s' % limit)
+
+    @functools.wraps(fn)
+    def wrapped(*a, **k):
+        if _WD['active']:                      # nested call: the outer watchdog is in charge
+            return fn(*a, **k)
+        old = signal.signal(signal.SIGALRM, handler)
+        _WD['active'] = True
+        signal.alarm(limit)
+        try:
+            return fn(*a, **k)
+        finally:
+            signal.alarm(0)
+            _WD['active'] = False
+            signal.signal(signal.SIGALRM, old)
+    wrapped._verif_watchdog = True
+    return wrapped
+
+
 def guard_expm(module):
     """scipy.sparse.linalg.expm_multiply does not terminate in useful time on non-finite or astronomically large input (met by the
     C06 fuzzer: krylov on a state the Lanczos recurrence breaks down on, 1/beta ~ 1e14).  Modules that imported it by name get a version that raises instead."""
@@ -62,11 +96,11 @@ def guard_expm(module):
 
     def safe(A, B, *a, **k):
         try:
-            ok = bool(np.all(np.isfinite(np.asarray(A))) and np.all(np.isfinite(np.asarray(B))) and float(np.max(np.abs(np.asarray(A)), initial=0.0)) < 1e9)
+            ok = bool(np.all(np.isfinite(np.asarray(A))) and np.all(np.isfinite(np.asarray(B))) and float(np.max(np.abs(np.asarray(A)), initial=0.0)) < 1e4)
         except Exception:
             ok = True
         if not ok:
-            raise FloatingPointError('non-finite or huge (> 1e9) input to expm_multiply (harness guard: scipy needs about |A| steps)')
+            raise FloatingPointError('non-finite or huge (> 1e4) input to expm_multiply (harness guard: scipy needs about |A| steps)')
         return orig(A, B, *a, **k)
     safe._verif_guard = True
     module.expm_multiply = safe
